@@ -378,8 +378,13 @@ def for_in(
         sequences.
     """
 
-    mapped: Iterable[Observable[_T2]] = map(mapper, values)
-    return concat_with_iterable(mapped)
+    # map() gives a one-shot iterator: build it anew for every subscription,
+    # otherwise only the first subscriber sees any of the sequences.
+    def factory(_: abc.SchedulerBase) -> Observable[_T2]:
+        mapped: Iterable[Observable[_T2]] = map(mapper, values)
+        return concat_with_iterable(mapped)
+
+    return defer(factory)
 
 
 @overload
